@@ -92,26 +92,39 @@ def dup_helpers(ctx):
 
 
 def _scan_dup_kind(ctx, b, keys):
-    from .. import tables
     rets = [p for p in mir.walk_function(b) if p.outcome[0] == "return"]
     if len(rets) != 1:
         return None
-    r = rets[0].outcome[1]
+    got = _dup_scan_expr(ctx, rets[0].outcome[1])
+    if got is None or got[1] != keys:
+        return None
+    return got[0]
+
+
+def _dup_scan_expr(ctx, r):
+    """r = keys.iter().enumerate().any|find|position(|(i, k)| keys[i+1..].contains(k)) [.map(..)]
+    -> ('bool'|'option', keys term), else None"""
+    from .. import tables
     kind = "bool"
     if isinstance(r, tuple) and r and r[0] == "call" and method_name(r[1]) == "map" and len(r[2]) == 2:
         r = r[2][0]
         kind = "option"
-    if not (isinstance(r, tuple) and r and r[0] == "call" and method_name(r[1]) in ("any", "find")):
+    if not (isinstance(r, tuple) and r and r[0] == "call" and method_name(r[1]) in ("any", "find", "position")):
         return None
-    if method_name(r[1]) == "find":
+    if method_name(r[1]) in ("find", "position"):
         kind = "option"
-    sc = tables.closure_scan(ctx.body, r)
-    if sc.problems or not sc.enum or sc.iter_term != T("iter", keys, "fwd") or len(sc.set_paths) != 1 or len(sc.set_paths[0]) != 1:
+    try:
+        sc = tables.closure_scan(ctx.body, r)
+    except Exception:
         return None
+    it = sc.iter_term
+    if sc.problems or not sc.enum or not (isinstance(it, tuple) and it[0] == "iter" and it[2] == "fwd") or len(sc.set_paths) != 1 or len(sc.set_paths[0]) != 1:
+        return None
+    keys = it[1]
     a, v = sc.set_paths[0][0]
     want_slice = T("index", keys, T("agg", "std::ops::RangeFrom", "RangeFrom", (T("binop", "Add", T("enumidx", sc.iter_term), T("const", T("int", 1, "usize"))),), ("start",)))
     if v is True and isinstance(a, tuple) and a[0] == "in" and mir.strip(a[1]) == T("elem", sc.iter_term, None) and _same_slice(a[2], want_slice):
-        return kind
+        return kind, keys
     return None
 
 
@@ -191,8 +204,6 @@ def _helper_checks(ctx, body, subject_pred, strict):
     """`if has_duplicate(X.F) { FAIL }` / `if let Some(k) = first_repeated(X.F) { FAIL }`"""
     helpers = dup_helpers(ctx)
     out = []
-    if not helpers:
-        return out
     levels = [mir.walk_function(body)] + [mir.walk_loop_body(body, h) for h in sorted(body.loops())]
     seen = set()
     for paths in levels:
@@ -201,9 +212,23 @@ def _helper_checks(ctx, body, subject_pred, strict):
                 if e.kind != "guard" or not isinstance(e.a, tuple):
                     continue
                 c = e.a[1] if e.a[0] == "variantof" else e.a
-                if not (isinstance(c, tuple) and c and c[0] == "call" and c[1] in helpers):
+                inline = None
+                if isinstance(c, tuple) and c and c[0] == "call" and c[1] not in helpers and method_name(c[1]) in ("any", "find", "position", "map"):
+                    inline = _dup_scan_expr(ctx, c)     # the scan written in place
+                seen_set = None
+                if isinstance(c, tuple) and c and c[0] == "call" and method_name(c[1]) == "all" and e.a[0] != "variantof":
+                    seen_set = _all_inserted_fresh(ctx, c, p.events[:i])    # keys.iter().all(|k| seen.insert(*k)) with a fresh set
+                if seen_set is not None:
+                    if e.b is not False:
+                        continue
+                    for vec in [mir.strip(seen_set)]:
+                        _one_helper_check(vec, subject_pred, strict, p, i, helpers, seen, out)
                     continue
-                if "{closure" in c[1]:
+                if inline is not None:
+                    arg0 = inline[1]
+                elif not (isinstance(c, tuple) and c and c[0] == "call" and c[1] in helpers):
+                    continue
+                elif "{closure" in c[1]:
                     # calling a closure: (environment, (keys,))
                     if not (len(c[2]) == 2 and isinstance(c[2][1], tuple) and c[2][1][0] == "tuple" and len(c[2][1][1]) == 1):
                         continue
@@ -233,6 +258,36 @@ def _helper_checks(ctx, body, subject_pred, strict):
     return out
 
 
+def _all_inserted_fresh(ctx, c, before):
+    """c = keys.iter().all(|k| set.insert(*k)) where `set` is an empty hash set nothing has been inserted into yet:
+    false exactly when some key occurs twice  ->  keys term, else None"""
+    if len(c[2]) != 2:
+        return None
+    it, clos = c[2]
+    if not (isinstance(it, tuple) and it[0] == "iter" and it[2] == "fwd" and isinstance(clos, tuple) and clos[0] == "closure"):
+        return None
+    elem = T("allelem", it)
+    try:
+        cps, cb = mir.walk_closure(ctx.body, clos, param_terms=[elem])
+    except Exception:
+        return None
+    rets = [q for q in cps if q.outcome[0] not in ("unreachable", "infeasible")]
+    if len(rets) != 1 or rets[0].outcome[0] != "return" or [e for e in rets[0].events if e.kind in ("guard", "store")]:
+        return None
+    r = rets[0].outcome[1]
+    if not (isinstance(r, tuple) and r[0] == "call" and method_name(r[1]) == "insert" and ("HashSet" in r[1] or "BTreeSet" in r[1]) and len(r[2]) == 2 and mir.strip(r[2][1]) == elem):
+        return None
+    st = mir.strip(r[2][0])
+    fresh = isinstance(st, tuple) and st[0] == "call" and method_name(st[1]) in ("new", "with_capacity", "default") and ("HashSet" in st[1] or "BTreeSet" in st[1])
+    if not fresh:
+        return None
+    # nothing was put into that set before the scan
+    for ev in before:
+        if ev.kind == "call" and ev.d and any(mir.strip(x) == st for x in ev.d) and ev.c != st and ev.c != c:
+            return None
+    return it[1]
+
+
 def _array_loop_is_total(body, it, helpers):
     """every path of the loop over `it` either goes on to the next element or leaves the function (no break)"""
     for h in sorted(body.loops()):
@@ -258,8 +313,11 @@ def _one_helper_check(vec, subject_pred, strict, p, i, helpers, seen, out):
                 if not (isinstance(vec, tuple) and vec[0] == "field" and subject_pred(vec[1])):
                     return
                 if strict:
+                    def is_scan(t):
+                        return isinstance(t, tuple) and t and t[0] == "call" and (t[1] in helpers or method_name(t[1]) in ("any", "find", "position", "map"))
                     data = [g for g in p.events[:i] if g.kind == "guard" and isinstance(g.a, tuple) and not (g.a[0] == "variantof" and isinstance(g.a[1], tuple) and g.a[1][0] == "next")
-                            and not (isinstance(g.a, tuple) and ((g.a[0] == "variantof" and isinstance(g.a[1], tuple) and g.a[1][0] == "call" and g.a[1][1] in helpers) or (g.a[0] == "call" and g.a[1] in helpers)))]
+                            and not (isinstance(g.a, tuple) and ((g.a[0] == "variantof" and is_scan(g.a[1])) or is_scan(g.a)))
+                            and not (g.a[0] == "variantof" and isinstance(g.a[1], tuple) and g.a[1][0] == "try")]
                     if data:
                         return
                 rest = p.events[i + 1:]
@@ -270,11 +328,18 @@ def _one_helper_check(vec, subject_pred, strict, p, i, helpers, seen, out):
                     if key not in seen:
                         seen.add(key)
                         out.append((vec[2], "panic", p.outcome[1]))
-                elif p.outcome[0] == "return" and isinstance(p.outcome[1], tuple) and p.outcome[1][0] == "agg" and p.outcome[1][2] == "Err":
+                elif p.outcome[0] == "return" and _is_err_value(p.outcome[1]):
                     key = (vec[2], "err")
                     if key not in seen:
                         seen.add(key)
                         out.append((vec[2], "err", None))
+
+
+def _is_err_value(r):
+    """Err(..) built on this path, or handed on by `?`"""
+    if isinstance(r, tuple) and r and r[0] == "from_residual" and isinstance(r[1], tuple) and r[1] and r[1][0] == "residual":
+        r = r[1][1]
+    return isinstance(r, tuple) and len(r) > 2 and r[0] == "agg" and r[2] == "Err"
 
 
 def pairwise_checks(ctx, body, subject_pred, strict=False):
@@ -477,7 +542,13 @@ def loader_validation(ctx, ck):
                 if len(calls) != 1 or not tried:
                     okbody = False
                     continue
-                vb = ctx.body(calls[0].a)
+                # (the validator is judged as one function: a new helper it delegates a side to is copied into it first)
+                mir.Walker.AUTO_INLINE = True
+                try:
+                    vb = ctx.body(calls[0].a)
+                    vb.loops()
+                finally:
+                    mir.Walker.AUTO_INLINE = False
                 for f, kind, _ in pairwise_checks(ctx, vb, lambda t: t == T("param", 1, vb.dbg.get(1, "")), strict=True):
                     if kind == "err":
                         vf.add(f)
